@@ -315,6 +315,10 @@ func RunC08(run *vk.Run) {
 				switch {
 				case c.Row.Z <= c.Row.L:
 					fc.MemSize = uint64(c.Row.Z) * 0x1000
+				case c.Row.Z == 2*mW:
+					// 2 GiB at a free address: small enough to be allocated under the address-space limit
+					fc.MemSize = 1 << 31
+					fc.MemBase = 1 << 32
 				case c.Row.Z <= 2*mW:
 					fc.MemSize = img + uint64(c.Row.Z-c.Row.L)*0x1000
 				case c.Row.Z <= 3*mW:
@@ -328,6 +332,9 @@ func RunC08(run *vk.Run) {
 					fc.SecType = 2 // the hand-off block is allocated in every mode
 				}
 				fc.Key = fmt.Sprintf("tdxregion type%d size%simage", fc.SecType, rel(int64(fc.MemSize>>12), int64(img>>12)))
+				if fc.MemSize == 1<<31 {
+					fc.Key += " 2GiB"
+				}
 				if fc.MemSize > 1<<62 {
 					fc.Key += " near-2^64"
 				} else if fc.MemSize > 1<<33 {
@@ -397,6 +404,10 @@ func RunC08(run *vk.Run) {
 		key := c.Kind
 		if c.Kind == "tdxregion" {
 			key = fmt.Sprintf("tdxregion:type%d", c.SecType)
+		} else if t := oversizedTdxRegion(buildFw(c)); t != 0 {
+			// a byte mutation that lands in the memory-size field of a TD_HOB / TempMem section is the
+			// same input class as the tdxregion witnesses: classify by cause, not by how it was generated
+			key = fmt.Sprintf("tdxregion:type%d", t)
 		}
 		switch cr.Status {
 		case "panic":
@@ -417,4 +428,27 @@ func RunC08(run *vk.Run) {
 	}
 	run.Exhaustive = true
 	run.Rule = "TLC enumerates every field value at reduced width for the SEV metadata, TDX metadata and non-firmware-volume section skeletons of Parsers.tla; every distinct witness class (relations between offset, header size, count*size wrap-around, declared length, section size and image size) is embedded into a real image and given to all ten firmware entry points in a guarded child process; plus truncations and seeded single-byte mutations of valid 4 KiB and 2 MiB images"
+}
+
+// oversizedTdxRegion returns the section type (2 = TD_HOB, 3 = TempMem) of the first TDVF
+// non-firmware-volume section of a fakeovmf-layout image whose declared memory size exceeds the
+// image size, or 0.
+func oversizedTdxRegion(img []byte) uint32 {
+	const desc = 0x100 + 16 // TDX metadata GUID, then the descriptor
+	if len(img) < desc+16 || binary.LittleEndian.Uint32(img[desc:]) != oabi.TDXMetadataDescriptorMagic {
+		return 0
+	}
+	n := int(binary.LittleEndian.Uint32(img[desc+12:]))
+	for i := 0; i < n && i < 64; i++ {
+		s := desc + 16 + 32*i
+		if s+32 > len(img) {
+			break
+		}
+		size := binary.LittleEndian.Uint64(img[s+16:])
+		typ := binary.LittleEndian.Uint32(img[s+24:])
+		if (typ == 2 || typ == 3) && size > uint64(len(img)) {
+			return typ
+		}
+	}
+	return 0
 }
